@@ -153,6 +153,10 @@ impl Ctx {
         self.assumptions.push(s.to_string());
     }
 
+    pub fn has_violations(&self) -> bool {
+        self.violation_count > 0
+    }
+
     pub fn cap(&mut self, s: &str) {
         println!("[{}] CAP: {}", self.id, s);
         self.caps.push(s.to_string());
